@@ -245,6 +245,13 @@ class Runner:
         self.trees = []
         self.refs = []  # dict key -> value id
         self.lines = []  # last observed tree_line per tree
+        self.serial = {}  # id(node) -> serial number (first appearance in the identity dumps)
+        self.keep = []  # the node objects, kept alive so that ids are not reused
+        self.snap = {}  # serial -> (element identities, child identities) at the last dump
+        self.creators = {}  # id(creator token) -> tree handle index
+        self.cow_tokens = []
+        self._cow = None
+        self.height_before = 0
         self.curs = []  # (tree index, cursor, refcursor, open)
         self.objs = {}
         self.fails = []  # (signature, what, op index)
@@ -281,6 +288,62 @@ class Runner:
             out.append(tree_line(tr))
         return out
 
+    # ---- mechanism level: node identities and creator tokens ------------------------------------------------
+    def id_dump(self, h, at, mutating=True):
+        """Walk the real nodes of every tree (handle order, preorder).  Node identities become serial numbers in order
+        of first appearance, creator tokens become the index of the tree handle they belong to.  Returns the identity
+        line of tree h and the digests of all trees.  Oracle (copy-on-write mechanism): a mutation of tree h creates
+        only nodes owned by h, changes no node owned by another tree, copies at most the nodes along its path, and the
+        nodes owned by a mutable tree are reachable from that tree only."""
+        mine = ""
+        digs = []
+        new_nodes = 0
+        reach = {}
+        tok = self.case["ops"][at] if at < len(self.case["ops"]) else "?"
+        for j, tr in enumerate(self.trees):
+            out = []
+            stack = [(tr.root, 0)]
+            visited = 0
+            while stack:
+                n, d = stack.pop()
+                visited += 1
+                if visited > 20000 or d > 64:
+                    out.append("CYCLE")
+                    break
+                sn = self.serial.get(id(n))
+                cr = self.creators.get(id(n.creator), -1)
+                content = (tuple(id(e) for e in n.elts), tuple(id(c) for c in n.children))
+                if sn is None:
+                    sn = len(self.keep)
+                    self.serial[id(n)] = sn
+                    self.keep.append(n)
+                    new_nodes += 1
+                    if mutating and cr != h:
+                        self.fail("C19/cow/new-node-foreign-creator", f"op {at} {tok}: the mutation of tree {h} created node #{sn} with the creator of tree {cr}", at)
+                else:
+                    old = self.snap.get(sn)
+                    if old is not None and old != content and (cr != h or not mutating):
+                        self.fail("C19/cow/shared-node-mutated", f"op {at} {tok}: the mutation of tree {h} changed node #{sn}, which is owned by tree {cr}", at)
+                self.snap[sn] = content
+                reach.setdefault(sn, (cr, set()))[1].add(j)
+                es = ",".join([elt_str(e) for e in n.elts])
+                if n.is_leaf:
+                    out.append(f"L{sn}@{cr}:" + es)
+                else:
+                    out.append(f"N{sn}@{cr}/{len(n.children)}:" + es)
+                    for c in reversed(n.children):
+                        stack.append((c, d + 1))
+            line = ";".join(out)
+            if j == h:
+                mine = line
+            digs.append(poly_hash(f"{line}#{len(tr)}#{'F' if tr._immutable else 'M'}"))
+        for sn, (cr, trees) in reach.items():
+            if 0 <= cr < len(self.trees) and not self.trees[cr]._immutable and trees != {cr}:
+                self.fail("C19/cow/owned-node-shared", f"op {at} {tok}: node #{sn} is owned by the mutable tree {cr} but reachable from trees {sorted(trees)}", at)
+        if mutating and new_nodes > 3 * (self.height_before + 1) + 2:
+            self.fail("C19/cow/copies-not-minimal", f"op {at} {tok}: {new_nodes} new nodes for a tree of height {self.height_before}", at)
+        return mine, ",".join(str(x) for x in digs)
+
     def after_mutation(self, h, at, res, changed_ok=True):
         tr = self.trees[h]
         lines = self.digests(at)
@@ -297,6 +360,8 @@ class Runner:
         if keys != sorted(ref):
             self.fail("C19/content/keys", f"op {at} {self.case['ops'][at]} on tree {h}: keys {keys} != reference {sorted(ref)}", at)
         self.mutations += 1
+        mine, digs = self.id_dump(h, at, mutating=changed_ok)
+        self._cow = f"{res}|{len(tr)}|{mine}|{digs}"
         return f"{res}|{len(tr)}|{shape_of(tr.root)}|" + ",".join(str(poly_hash(x)) for x in lines)
 
     def items_of(self, tr):
@@ -323,6 +388,11 @@ class Runner:
             k = a[1]
             frozen = tr._immutable
             empty_root = (not tr.root.is_leaf) and len(tr.root.elts) == 0
+            hb, nn = 0, tr.root
+            while not nn.is_leaf and nn.children and hb < 64:
+                nn = nn.children[0]
+                hb += 1
+            self.height_before = hb
             try:
                 if op == "I":
                     v = a[2]
@@ -487,6 +557,7 @@ class Runner:
             if not T[h]._immutable:
                 self.fail("C19/clone/accepted-mutable", f"op {at} {tok}: clone of a mutable tree was accepted", at)
             T.append(c)
+            self.creators[id(c.creator)] = len(T) - 1
             self.refs.append(self.refs[h].copy())
             self.lines.append(tree_line(c))
             return str(len(T) - 1)
@@ -552,6 +623,7 @@ class Runner:
                 return "err ValueError"
         T0 = self.new_tree(None, self.io)
         self.trees.append(T0)
+        self.creators[id(T0.creator)] = 0
         self.refs.append({})
         self.lines.append(tree_line(T0))
         ops = self.case["ops"]
@@ -559,6 +631,7 @@ class Runner:
         signal.alarm(20)
         try:
             for at, tok in enumerate(ops):
+                self._cow = None
                 try:
                     r = self.step(at, tok)
                 except Hang:
@@ -576,6 +649,8 @@ class Runner:
                     except BaseException:
                         pass
                 self.tokens.append(r)
+                if tok[:1] in COW_OPS:
+                    self.cow_tokens.append(self._cow if self._cow is not None else r)
         finally:
             signal.alarm(0)
             signal.signal(signal.SIGALRM, old)
@@ -601,6 +676,15 @@ def collapse_always() -> int:
         except BaseException:
             _VARIANT = 0
     return _VARIANT
+
+
+COW_OPS = "IDXGCF"
+
+
+def cow_line(case):
+    """the same history for the mechanism-level model (heap of nodes with creator tokens): cursor and listing ops,
+    which never touch a node, are left out"""
+    return f"c19.cow {case['t']} {case['io']} {collapse_always()} " + " ".join(t for t in case["ops"] if t[:1] in COW_OPS)
 
 
 def op_line(case):
@@ -667,6 +751,8 @@ def eval_case(ctx: Ctx, case: dict, minimize=True):
         return
     r, out = run_impl(case)
     ctx.corr(op_line(case), out, case)
+    if case["t"] >= 3:
+        ctx.corr(cow_line(case), "ok " + " ".join(r.cow_tokens) if r.cow_tokens else "ok", case)
     for tok in case["ops"]:
         ctx.count("op." + tok[:1])
     ctx.count("hist.t%d.io%d.%s" % (case["t"], case["io"], "set" if case.get("set") else "dict"))
